@@ -204,8 +204,8 @@ class PureProp:
         for q, a, b in c['relocate']:
             if a != b:
                 run.findings.append(Finding(
-                    'oracle', f"[zone {c['tz']} lat {c['lat']:.3f} lon {c['lon']:.3f} sun kind {c['kind']}] after set_location(same "
-                    f'coordinates, observer elevation 2500 m) get_next({q}) returns {a}, a fresh computation for the configured '
+                    'oracle', f"[zone {c['tz']} lat {c['lat']:.3f} lon {c['lon']:.3f} sun kind {c['kind']}] after set_location(...) was "
+                    f'called again (another observer elevation, then another place) get_next({q}) returns {a}, a fresh computation for the configured '
                     f'location gives {b}: the answer depends on earlier queries',
                     {'component': 'sun', 'seed': c['seed'], 'lat': c['lat'], 'lon': c['lon'], 'kind': c['kind'],
                      'start': c['queries'][0], 'tz': c['tz'], 'relocate': True}))
